@@ -576,30 +576,30 @@ def run_float32(case):
 
 SUBCHECKS = [
     Subcheck('scaling_closed_form', run_scaling, strategy=lambda tier: _scaling_case(tier),
-             examples={'quick': 300, 'thorough': 24000}, shards={'quick': 2, 'thorough': 6},
+             examples={'quick': 300, 'thorough': 72000}, shards={'quick': 2, 'thorough': 6},
              rule='non-trivial = at least 3 total wavenumbers and a non-zero strength',
              doc='filter(ones): finite, rows identical, factor(0) == 1, in (0,1], non-increasing, closed form; random '
                  'spectra are multiplied by exactly that factor; far-underflow strengths stay in [0,1] and monotone'),
     Subcheck('mixed_pytrees', run_pytree, strategy=lambda tier: _pytree_case(tier),
-             examples={'quick': 300, 'thorough': 24000}, shards={'quick': 2, 'thorough': 6},
+             examples={'quick': 300, 'thorough': 72000}, shards={'quick': 2, 'thorough': 6},
              rule='non-trivial = tree holds at least one spectral and one non-spectral leaf',
              doc='scalars, clocks, PRNG keys, non-broadcastable and broadcast-enlarging leaves are returned untouched, '
                  'no exception (defect #6); spectral leaves with leading axes are filtered'),
     Subcheck('step_semigroup', run_semigroup, strategy=lambda tier: _semigroup_case(tier),
-             examples={'quick': 150, 'thorough': 12000}, shards={'quick': 1, 'thorough': 3},
+             examples={'quick': 150, 'thorough': 36000}, shards={'quick': 1, 'thorough': 3},
              rule='non-trivial = at least 3 total wavenumbers',
              doc='step_filter(a dt) then step_filter((1-a) dt) == step_filter(dt)'),
     Subcheck('array_strengths', run_array, strategy=lambda tier: _array_case(tier),
-             examples={'quick': 120, 'thorough': 9600}, shards={'quick': 2, 'thorough': 4},
+             examples={'quick': 120, 'thorough': 28800}, shards={'quick': 2, 'thorough': 4},
              rule='non-trivial = the strengths differ between slices',
              doc='array attenuation / scale / tau / order == scalar filter slice by slice'),
     Subcheck('adapters_robert_asselin', run_adapters, strategy=lambda tier: _adapter_case(tier),
-             examples={'quick': 100, 'thorough': 8000}, shards={'quick': 1, 'thorough': 3},
+             examples={'quick': 100, 'thorough': 24000}, shards={'quick': 1, 'thorough': 3},
              rule='non-trivial = r > 0 and a non-constant triple',
              doc='runge_kutta_step_filter / leapfrog_step_filter touch only what they should; Robert-Asselin keeps the '
                  'newest level, linear-in-time triples, and equals (1-2r)c + r(p+f)'),
     Subcheck('float32_pass', run_float32, strategy=lambda tier: _scaling_case(tier),
-             examples={'quick': 20, 'thorough': 8000}, shards={'quick': 1, 'thorough': 2},
+             examples={'quick': 20, 'thorough': 24000}, shards={'quick': 1, 'thorough': 2},
              rule='non-trivial = at least 3 total wavenumbers and a non-zero strength',
              doc='float32 inputs with x64 disabled: same scaling properties at float32 tolerance'),
 ]
